@@ -25,6 +25,7 @@ pub fn classify(m: &RecipeM, f: &Features, st: &mut Stats) {
             BlockM::Text(_) => st.class("text-paragraph"),
             BlockM::Mode(_) => st.class("mode-switch"),
             BlockM::Meta(_, _) => st.class("`>>` metadata"),
+            BlockM::StepLine(_) => st.class("`>>` line that is a step (front matter present)"),
             BlockM::Step(toks) => {
                 for t in toks {
                     match &t.tok {
